@@ -335,3 +335,26 @@ func TestC13Enum(t *testing.T) {
 		return c13Enum(sampled, j+((i*13+seed)%128)*total)
 	}, execC13)
 }
+
+// FuzzC13: coverage-guided search over response sequences; byte 0 selects the configuration, then (shape, target) pairs.
+func FuzzC13(f *testing.F) {
+	f.Add([]byte{0, 0, 0, 7, 1, 9, 1})
+	f.Add([]byte{0x5b, 5, 0, 11, 1, 12, 0, 0, 0})
+	f.Add([]byte{0xff, 1, 0, 1, 0, 4, 0, 14, 2})
+	f.Fuzz(func(t *testing.T, data []byte) {
+		if len(data) < 3 {
+			return
+		}
+		al := len(c13Alphabet())
+		cfg := int(data[0])
+		c := C13Case{KindA: cfg % 4, KindB: (cfg / 4) % 4, Stats: (cfg/16)%2 == 1, HeaderFirst: (cfg/32)%2 == 1, Deadline: (cfg/64)%2 == 1, Ser: (cfg/128)%2 == 1}
+		for i := 1; i+1 < len(data) && i < 80; i += 2 {
+			c.Seq = append(c.Seq, C13Sym{Shape: int(data[i]) % al, Target: int(data[i+1]) % 3})
+		}
+		journal("C13", "random", c)
+		if v := execC13(t, c); v.Fail != "" {
+			writeReplay("C13", "random", v.Fail, c, v.Detail)
+			t.Fatalf("VERIF-FAIL C13/fuzz: %s", v.Fail)
+		}
+	})
+}
